@@ -228,6 +228,14 @@ impl Range {
 
         let components = boxed_url_components.unwrap();
 
+        if components.path.split(SYMBOL.slash).any(|segment| segment == "..") {
+            let error = Error {
+                status_code_reason_phrase: STATUS_CODE_REASON_PHRASE.n403_forbidden,
+                message: "path traversal is not allowed".to_string()
+            };
+            return Err(error);
+        }
+
         let file_path_part = components.path.replace(SYMBOL.slash, &FileExt::get_path_separator());
 
         let boxed_static_filepath = FileExt::get_static_filepath(&file_path_part);
